@@ -13,7 +13,7 @@ COMMON_TRUST = [
 
 PROPS = {
     "C19": dict(
-        proof_files=["gen/ArithGen.v", "proofs/C19Proof.v", "props/C19.v"],
+        proof_files=["gen/ValuesGen.v", "gen/CmpGen.v", "proofs/AnchorsValues.v", "proofs/C19Proof.v", "props/C19.v"],
         props_files=["props/C19.v"],
         harness="C19",
         theorems=["C19_ordered", "C19_bool", "C19_value_only"],
